@@ -60,6 +60,8 @@ func (t *term) String() string {
 		r = t.args[0].String()
 	case "ite":
 		r = "(ite " + t.args[0].String() + " " + t.args[1].String() + " " + t.args[2].String() + ")"
+	case "bvop":
+		r = "(" + t.name + " " + t.args[0].String() + " " + t.args[1].String() + ")"
 	case "and", "or":
 		var sb strings.Builder
 		sb.WriteString("(" + t.op)
@@ -240,4 +242,26 @@ func termVars(t *term, seen map[*term]bool, out map[string]*term) {
 	for _, a := range t.args {
 		termVars(a, seen, out)
 	}
+}
+
+// 8-bit arithmetic / bitwise operation
+func mkBV8(name string, a, b *term) *term {
+	if a.isConst() && b.isConst() {
+		x, y := a.val&0xff, b.val&0xff
+		var r int64
+		switch name {
+		case "bvadd":
+			r = x + y
+		case "bvsub":
+			r = x - y
+		case "bvand":
+			r = x & y
+		case "bvor":
+			r = x | y
+		case "bvxor":
+			r = x ^ y
+		}
+		return bvConst(r&0xff, 8)
+	}
+	return &term{op: "bvop", name: name, args: []*term{a, b}, w: 8}
 }
